@@ -93,6 +93,6 @@ main(int argc, char **argv) {
 	FAM(xml);
 	FAM(ini);
 	FAM(bt);
-	FAM(bt_deep);	/* last: may kill the process */
+	FAM(bt_deep);
 	return (vh_finish());
 }
